@@ -309,3 +309,35 @@ def pipeline(tier, rep, calibrate=True, name="String"):
     if not tv["deviations"]:
         _cleanup(traces)
     return tv, st
+
+
+def replay(rec):
+    """Re-run one recorded call on the current tree: rebuild the recorded pre-state through the public API
+    (ctor_range on both objects), run the call (or the one-point query bundle containing it) and judge the trace;
+    returns the deviations of the recorded call signature."""
+    ev = rec["event"]
+    ty, cap = ev.get("inst", "char_3").rsplit("_", 1)
+    x0 = {"c": 0, "n": 0, "p": 0, "xs": [], "src": "b", "p2": 0, "n2": 0, "d": 0}
+    path = [{"op": "ctor_range", "o": o, "x": dict(x0, xs=ev["pre"][o]["s"], src="a" if o == "b" else "b"), "rel": False}
+            for o in ("a", "b")]
+    g = {"cap": int(cap), "path": path, "edges": [], "q": None, "nq": 0}
+    if "q" in ev:
+        n = ev["n"]
+        g["q"] = {"P": [ev["pos"]], "P1": [min(max(ev["pos"], 0), len(ev["h"]))], "C1": [ev["cnt"]], "P2": [min(max(ev["pos2"], 0), len(n))],
+                  "C2": [ev["cnt2"]], "XS": [n], "LX": n, "CH": [n[0]] if len(n) == 1 else [0], "full": 1}
+    else:
+        g["edges"] = [{"op": ev["op"], "o": ev["o"], "x": ev["x"], "rel": False}]
+    d = vlib.workdir("replay")
+    sp = os.path.join(d, "string_group.ndjson")
+    with open(sp, "w") as f:
+        f.write(json.dumps(g) + "\n")
+    flags, _ = probe(ty)
+    b = vlib.build("string_driver.cpp", "string_replay", flags=flags + ["-DVH_CHAR=" + ty, "-DVH_CAPS=" + cap], std="c++23")
+    tp = os.path.join(d, "string_trace.ndjson")
+    vlib.run([b, "replay", ty, cap, sp, "0", "1", "0", "1"], tp)
+    tv = vlib.tlc_tv("StringTrace.tla", "StringTrace.cfg", tp, "string_replay", heap="2g")
+    if "q" in ev:
+        sig = lambda e: tuple(e.get(k) for k in ("op", "ov", "d", "pos", "cnt", "pos2", "cnt2")) + (json.dumps(e.get("n")),)
+    else:
+        sig = lambda e: (e.get("op"), e.get("o"), json.dumps(e.get("x"), sort_keys=True))
+    return [x for x in tv["deviations"] if ("q" in x.get("ev", {})) == ("q" in ev) and sig(x.get("ev", {})) == sig(ev)]
